@@ -11,9 +11,10 @@ CFG="-G Ninja -DLibXml2_DIR=/root/miniconda/lib/cmake/libxml2 -DLIBCELLML_BINDIN
 cmake -S . -B _build $CFG > /dev/null 2>&1
 cmake --build _build -j16 > /dev/null 2>&1
 LIB=$(ls _build/src/libcellml*.so | head -1); LNAME=$(basename $LIB .so | sed 's/^lib//')
-for d in /verif/seeded/C*_m*; do
+LIST=""; if [ $# -gt 0 ]; then for a in "$@"; do LIST="$LIST /verif/seeded/$a"; done; else LIST=$(ls -d /verif/seeded/[CR]*_[mr]*); fi
+for d in $LIST; do
   id=$(basename $d); out=$d/verify.txt; : > $out
-  g++ -std=c++17 $d/demo.cpp -I src/api -I _build/src/api -L _build/src -l$LNAME -Wl,-rpath,$WT/_build/src -Wl,-rpath,/root/miniconda/lib -o /tmp/demo_clean_$id 2>>$out
+  g++ -std=c++17 $d/demo.cpp -I src/api -I src/api/libcellml/module -I _build/src/api -L _build/src -l$LNAME -Wl,-rpath,$WT/_build/src -Wl,-rpath,/root/miniconda/lib -o /tmp/demo_clean_$id 2>>$out
   /tmp/demo_clean_$id > /tmp/demo_out 2>&1; echo "demo_on_clean_exit=$?" >> $out
   if git apply --3way $d/patch.diff 2>>$out || git apply $d/patch.diff 2>>$out; then echo "patch_applies=1" >> $out; else echo "patch_applies=0" >> $out; git checkout -q -- . ; git reset -q --hard HEAD; continue; fi
   git diff HEAD --stat | tail -1 >> $out
